@@ -106,6 +106,13 @@ def event_projects():
         P.append(("type-defined-%d-directories-down" % depth, [
             ("lib.rs", a + rg.command_src("stock", [("item", "DeepItem")], "Vec<DeepLevel>") + "pub fn moved(app: AppHandle, m: DeepMoved) {\n    app.emit(\"stock-moved\", m).unwrap();\n}\n"),
             (deep, rg.PRELUDE + rg.struct_src("DeepItem", [("level", "DeepLevel")]) + rg.enum_src("DeepLevel", [("Low",), ("High",)]) + rg.struct_src("DeepMoved", [("item", "DeepItem")]))]))
+    # commands that derive one TypeScript name (the same function name in two modules; snake_case / camelCase twins) where some take
+    # nothing from the frontend: whatever numbers the parameter objects get, commands.ts and types.ts agree on them
+    P.append(("same-command-name-in-two-files-first-without-parameters", [("lib.rs", a), ("admin/users.rs", HDR + rg.command_src("list", [], "Vec<Foo>")),
+                                                                            ("public/users.rs", HDR + rg.command_src("list", [("page", "u32"), ("kind", "Option<Kind>")], "Vec<Foo>"))]))
+    P.append(("same-command-name-in-three-files-middle-without-parameters", [("lib.rs", a), ("a/mod.rs", HDR + rg.command_src("sync", [("w", "Wrap")], "i32")), ("b/mod.rs", HDR + rg.command_src("sync", [("app", "AppHandle")], "Foo")),
+                                                                               ("c/mod.rs", HDR + rg.command_src("sync", [("on_step", "Channel<Foo>")], "i32"))]))
+    P.append(("case-twin-command-names-first-without-parameters", [("lib.rs", a + rg.command_src("get_user", [], "Foo") + rg.command_src("getUser", [("id", "i32")], "Foo") + rg.command_src("get__user", [("ch", "Channel<Kind>")], "i32"))]))
     P.append(("no-events", [("lib.rs", a)]))
     # no command takes anything from the frontend: commands.ts still needs its `types` import for what the commands return
     for k, rets in enumerate((["Vec<Foo>"], ["Option<Foo>", "Result<Vec<Kind>, String>"], ["HashMap<String, Wrap>", "(Foo, Kind)"], ["Result<Option<Vec<Foo>>, String>"], ["Foo"], ["Vec<Foo>", "i32"])):
